@@ -487,7 +487,7 @@ def run_custom(n, pid):
 def malform(rng, cfg):
     """one mutation of a valid configuration that makes `_initialize()` raise (returns a tag)"""
     k = rng.choice(["window_1day", "uncovered_end", "uncovered_start", "planting_0230", "too_long", "schedule_dup", "gw_other_method",
-                    "iwc_depth_len", "iwc_layer_missing", "end_before_start"])
+                    "iwc_depth_len", "iwc_layer_missing", "end_before_start", "co2_empty", "ksat0_calc_cn", "layer_too_thin", "no_season"])
     if k == "window_1day":
         cfg["end"] = cfg["start"]
     elif k == "end_before_start":
@@ -511,7 +511,43 @@ def malform(rng, cfg):
         cfg["iwc"] = {"wc_type": "Pct", "method": "Depth", "depth_layer": [0.2, 0.6], "value": [20, 50, 10]}
     elif k == "iwc_layer_missing":
         cfg["iwc"] = {"wc_type": "Pct", "method": "Layer", "depth_layer": [1, 7], "value": [20, 50]}
+    elif k == "co2_empty":
+        cfg["co2"] = {"series": []}
+    elif k == "ksat0_calc_cn":
+        cfg["soil"] = {"type": "custom", "dz": [0.1] * 12, "layers": [[1.2, 0.1, 0.2, 0.4, 0.0, 100]], "kwargs": {"calc_cn": 1}}
+        cfg["iwc"] = None
+    elif k == "layer_too_thin":
+        cfg["soil"] = {"type": "custom", "dz": [0.1] * 12, "layers": [[0.04, 0.1, 0.2, 0.4, 100.0, 100]], "kwargs": {}}
+        cfg["iwc"] = None
+    elif k == "no_season":
+        # a window that ends before the first planting date: no season at all (IndexError, finding 11)
+        st = pd.Timestamp(cfg["start"]); pm, pd_ = [int(x) for x in cfg["crop"]["planting_date"].split("/")]
+        cfg["start"] = (pd.Timestamp(year=st.year, month=pm, day=pd_) + pd.Timedelta(days=20)).strftime("%Y/%m/%d")
+        cfg["end"] = (pd.Timestamp(cfg["start"]) + pd.Timedelta(days=60)).strftime("%Y/%m/%d")
     return k
+
+
+def run_malformed(n=140, name="initialise-malformed"):
+    """mutated configurations: does the model reject exactly those the implementation rejects, and with which error kind"""
+    cfgs = []; tags = []
+    for i in range(n):
+        rng = rng_for("cfg", name, i)
+        cfg = sim.gen_config(rng, method=i % 6)
+        tags.append(malform(rng, cfg)); cfgs.append(cfg)
+    res = sim.pmap(worker, [{"cfg": c, "index": i, "stage": 4} for i, c in enumerate(cfgs)], timeout=600)
+    tab = collections.Counter(); bad = []
+    for c, t, r in zip(cfgs, tags, res):
+        if r.get("hang") or r.get("harness_error"):
+            tab[(t, "HARNESS " + str(r.get("harness_error", "hang"))[-160:])] += 1; continue
+        if r.get("skipped"):
+            tab[(t, r["skipped"])] += 1
+        elif r.get("rejected"):
+            tab[(t, r["rejected"] + " -> model " + str(r.get("model_error")) + (" AGREE" if r.get("rejected_agree") else " DISAGREE"))] += 1
+        else:
+            tab[(t, "accepted by the implementation; init %s run %s" % ("agree" if r.get("init_agree") else "DISAGREE",
+                                                                          "agree" if r.get("run_agree") else ("DISAGREE" if r.get("run_disagree") else r.get("run_skipped"))))] += 1
+        if r.get("first_bad"): bad.append(r["first_bad"])
+    return tab, bad
 
 
 def gen(rng, n):
